@@ -86,6 +86,82 @@ type vC17Declares struct{ vC17Plain }
 
 func (t *vC17Declares) Internal() bool { return true }
 
+// vC17Conn is the connection a TCP / DoT job currently serves: only its peer address and the bytes written matter
+type vC17Conn struct {
+	remote net.TCPAddr
+	wrote  int
+}
+
+func (c *vC17Conn) Read(b []byte) (int, error)       { return 0, os.ErrClosed }
+func (c *vC17Conn) Write(b []byte) (int, error)      { c.wrote += len(b); return len(b), nil }
+func (c *vC17Conn) Close() error                     { return nil }
+func (c *vC17Conn) LocalAddr() net.Addr              { return &net.TCPAddr{IP: net.IPv4(127, 0, 0, 1), Port: 53} }
+func (c *vC17Conn) RemoteAddr() net.Addr             { return &c.remote }
+func (c *vC17Conn) SetDeadline(time.Time) error      { return nil }
+func (c *vC17Conn) SetReadDeadline(time.Time) error  { return nil }
+func (c *vC17Conn) SetWriteDeadline(time.Time) error { return nil }
+
+// vC17Slabs are the server's OWN long-lived transport jobs, as the engines keep them: one udpJob (the
+// slab whose cached remote view setRemote rewrites in place for every datagram) and one tcpJob (the slab a
+// connection loop hands its current connection for every frame). Each owns its chain and is bound to it
+// again for every packet it carries, so a slab meets many sources in its life.
+type vC17Slabs struct {
+	udp  *udpJob
+	tcp  *tcpJob
+	uses [2]int
+	last [2]string // the source the slab served before this one
+}
+
+func vC17NewSlabs() *vC17Slabs {
+	return &vC17Slabs{udp: &udpJob{burst: &udpTXBurst{}}, tcp: newTCPJob(nil, false)}
+}
+
+// vC17ServeSlab carries one packet from (ip, port) on the long-lived job of the path's transport
+// (0: UDP worker ServeRaw, 3: UDP reader inline pass + replay, 4: TCP / DoT connection loop), doing what
+// the engine does around the call: the per-packet remote / connection, the written flag, the release.
+func vC17ServeSlab(s *Server, sl *vC17Slabs, path int, ip net.IP, port int, q *dns.Msg) (remote string, replied bool, prev string, uses int) {
+	raw, _ := q.Pack()
+	now := time.Now()
+	a, _ := netip.AddrFromSlice(ip)
+	if path == 4 {
+		j := sl.tcp
+		conn := &vC17Conn{remote: net.TCPAddr{IP: ip, Port: port}}
+		stream := &tcpStream{}
+		stream.reset(conn)
+		j.conn, j.stream, j.written, j.readTime = conn, stream, false, now
+		copy(j.rx, raw)
+		s.ServeRaw(j, j.rx[:len(raw)], now)
+		replied = j.written || stream.held > 0 || conn.wrote > 0
+		remote = vC17CoqRemote(j)
+		_ = stream.flush()
+		if stream.wait != nil {
+			stream.wait.Stop()
+		}
+		prev, uses = sl.last[1], sl.uses[1]
+		sl.last[1], sl.uses[1] = a.String(), uses+1
+		return
+	}
+	j := sl.udp
+	j.setRemote(netip.AddrPortFrom(a, uint16(port)))
+	j.rxLen = copy(j.rx[:], raw)
+	j.readTime = now
+	j.written, j.txLen, j.replay = false, 0, false
+	if path == 3 {
+		if !s.ServeRawInline(j, j.rx[:j.rxLen], now) && !j.written {
+			j.replay = true
+			s.ServeRawReplay(j, j.rx[:j.rxLen], now)
+		}
+	} else {
+		s.ServeRaw(j, j.rx[:j.rxLen], now)
+	}
+	replied = j.written || j.txLen > 0
+	remote = vC17CoqRemote(j)
+	j.written, j.txLen, j.replay, j.rxLen = false, 0, false, 0
+	prev, uses = sl.last[0], sl.uses[0]
+	sl.last[0], sl.uses[0] = a.String(), uses+1
+	return
+}
+
 func vC17CoqIP(ip net.IP) string {
 	switch len(ip) {
 	case 4:
@@ -213,6 +289,7 @@ func TestVerifC17Chain(t *testing.T) {
 			Cached   bool   `json:"cached_name"`
 			Declined bool   `json:"strict_declined_shape"`
 			Burst    int    `json:"burst"` // > 0: that many high-amplification queries instead of one query
+			Slab     bool   `json:"reuse_slab"` // carried by the configuration's long-lived engine job (after the probes before it)
 		} `json:"probes"`
 	}
 	if dir := os.Getenv("VERIF_CORPUS"); dir != "" {
@@ -285,6 +362,8 @@ func TestVerifC17Chain(t *testing.T) {
 			allowedSrc = good[0].Addr()
 		}
 		s.ServeMsg(context.Background(), mock.NewWriter("udp", netip.AddrPortFrom(allowedSrc, 4242).String()), wq)
+		slabs := vC17NewSlabs()
+		useSlab := false // the next emitChain is carried by the configuration's long-lived engine job
 		emitChain := func(srcDesc string, ip net.IP, port int, path int, cached bool, tag string, declinedMode int) {
 			name := warm
 			if !cached {
@@ -304,7 +383,20 @@ func TestVerifC17Chain(t *testing.T) {
 				q.Extra = append(q.Extra, &dns.TXT{Hdr: dns.RR_Header{Name: "x.", Rrtype: dns.TypeTXT, Class: dns.ClassINET, Ttl: 0}, Txt: []string{"v"}})
 			}
 			before := witness.calls
-			remote, replied := vC17Serve(s, path, ip, port, q)
+			var remote string
+			var replied bool
+			pathName := vC17Paths[path]
+			var slabInfo map[string]any
+			if useSlab && (path == 0 || path == 3 || path == 4) {
+				var prev string
+				var uses int
+				remote, replied, prev, uses = vC17ServeSlab(s, slabs, path, ip, port, q)
+				pathName += " (long-lived engine job)"
+				slabInfo = map[string]any{"packets_carried_before": uses, "previous_source": prev}
+				tag += "-slab-reuse"
+			} else {
+				remote, replied = vC17Serve(s, path, ip, port, q)
+			}
 			delta := witness.calls - before
 			k := "chain-denied"
 			if replied {
@@ -314,7 +406,7 @@ func TestVerifC17Chain(t *testing.T) {
 				"k":          k + tag,
 				"coq":        fmt.Sprintf("CaseChain %d [%s] %s %d %v %v %d", len(cidrs), strings.Join(pcoq, "; "), remote, path, cached, replied, delta),
 				"nontrivial": true,
-				"desc":       map[string]any{"accesslist": cidrs, "src": srcDesc, "src_ip_bytes": len(ip), "src_port": port, "path": vC17Paths[path], "strict_declined_shape": declined, "reflex_block_mode": reflexOn, "cached_name": cached, "replied": replied, "resolver_calls": delta},
+				"desc":       map[string]any{"accesslist": cidrs, "src": srcDesc, "src_ip_bytes": len(ip), "src_port": port, "path": pathName, "slab": slabInfo, "strict_declined_shape": declined, "reflex_block_mode": reflexOn, "cached_name": cached, "replied": replied, "resolver_calls": delta},
 			})
 			f.Write(append(b, '\n'))
 		}
@@ -363,7 +455,9 @@ func TestVerifC17Chain(t *testing.T) {
 				if pb.Declined {
 					dm = 1
 				}
+				useSlab = pb.Slab
 				emitChain(pb.Src, ip, pb.Port, path, pb.Cached, "-corpus", dm)
+				useSlab = false
 			}
 			continue
 		}
@@ -393,6 +487,62 @@ func TestVerifC17Chain(t *testing.T) {
 					emitChain(src.String(), net.IP(src.AsSlice()), 4242, path, cached, "", -1)
 				}
 			}
+		}
+		// the engines' jobs are long-lived slabs that own their chain: one udpJob and one tcpJob carry a run of packets
+		// from sources of changing identity — inside / outside the list in turn, both families and the IPv4-mapped form
+		// (the UDP slab rewrites its remote view in place), a later connection from another peer on the TCP slab — and
+		// every packet must be judged by the source it came from, whatever the slab carried before
+		{
+			other := []netip.Addr{netip.MustParseAddr("203.0.113.9"), netip.MustParseAddr("2001:db8:ffff::9"), netip.MustParseAddr("198.51.100.77"), netip.MustParseAddr("2a00:1450::5")}
+			var run []netip.Addr
+			for i := 0; i < 7; i++ {
+				var src netip.Addr
+				if len(good) > 0 && (i+c)%2 == 0 {
+					g := good[r.Intn(len(good))]
+					src = g.Addr()
+					if r.Intn(3) == 0 {
+						src = g.Masked().Addr()
+					}
+				} else {
+					switch r.Intn(4) {
+					case 0:
+						src = vC17Prefix(r).Addr()
+					case 1:
+						if len(good) > 0 {
+							src = good[r.Intn(len(good))].Masked().Addr().Prev()
+						}
+					default:
+						src = other[r.Intn(len(other))]
+					}
+				}
+				if !src.IsValid() {
+					src = other[i%len(other)]
+				}
+				run = append(run, src)
+			}
+			useSlab = true
+			for i, src := range run {
+				ip := net.IP(src.AsSlice())
+				if src.Is4() && r.Intn(3) == 0 { // the 16-byte form of an IPv4 source (what a dual-stack socket reports)
+					b := src.As16()
+					ip = net.IP(b[:])
+				}
+				path := []int{0, 4, 3}[(i+c)%3]
+				emitChain(src.String(), ip, 1024+r.Intn(60000), path, r.Intn(2) == 0, "", -1)
+				if i%3 == 0 {
+					emitChain(src.String(), ip, 1024+r.Intn(60000), []int{4, 0}[i/3%2], r.Intn(2) == 0, "", -1)
+				}
+			}
+			// the sub-query signature's neighbourhood on the slabs too: a slab that just carried 127.0.0.255 from a real
+			// port then carries a denied source, and the other way round
+			for i, sip := range []net.IP{{127, 0, 0, 255}, net.IPv4(127, 0, 0, 255)} {
+				for _, path := range []int{0, 4} {
+					emitChain(sip.String(), sip, []int{4242, 0}[(i+c)%2], path, false, "-sentinel-sweep", -1)
+					o := other[r.Intn(len(other))]
+					emitChain(o.String(), net.IP(o.AsSlice()), 4242, path, false, "", -1)
+				}
+			}
+			useSlab = false
 		}
 		// the neighbourhood of the sub-query signature (127.0.0.255 port 0) on every transport: the sentinel address in
 		// both byte forms and its neighbours, port 0 and real ports, over all eight paths
